@@ -62,12 +62,17 @@ Inductive switch_elem :=
 (* what the proxy does after the switch *)
 Inductive pevent :=
 | PRequeue                   (* qt_threadqueue_enqueue(item->thread->rdata->shepherd_ptr->ready, item->thread) *)
-| PFree (ops : list op).     (* FREE_SYSCALLJOB(item), executed when item->op is in ops *)
+| PFree (ops : list op)      (* FREE_SYSCALLJOB(item), executed when item->op is in ops *)
+| PStoreErr.                 (* item->err = errno: the proxied call's error code, taken on the proxy pthread *)
+
+(* the test under which a wrapper restores errno from the job *)
+Inductive errcond := ErrNeg (* ret < 0 *) | ErrMinus1 (* ret == -1 *).
 
 (* what a wrapper does, in source order *)
 Inductive wevent :=
 | WAlloc | WSetThread | WSetOp | WMarshal (slot : nat) (param : nat) (h : inhow) | WSetBlockedOn | WSetState
-| WPark | WReadRet | WFree | WReturnRet | WReturnVoid.
+| WPark | WReadRet | WFree | WReturnRet | WReturnVoid
+| WRestoreErr (c : errcond).  (* if (c ret) errno = job->err *)
 
 Record wrapper := mkWrapper {
   w_name   : string;
